@@ -69,6 +69,7 @@ class JobContext(object):
         self.pending = []
         self.scratch = []
         self.hashseeds = 0
+        self.env_nondet = False
 
     # -- known findings ------------------------------------------------------------------------
     def known_for(self, label):
@@ -305,6 +306,8 @@ class JobContext(object):
             bad = "native run raised %s" % res["exception"]["type"]
         elif res["failed"]:
             bad = "native run fails checks %s that the solver discharged" % res["failed"]
+        elif self.env_nondet:
+            pass            # the native environment (e.g. directory listing order) may follow another explored path
         elif res["covers"] != exp_covers:
             bad = "native run reached cover points %s, symbolic path %s" % (res["covers"], exp_covers)
         elif res["checks"] != exp_checks:
@@ -417,6 +420,7 @@ def run_job(spec):
                          validate_every=job.get("validate_every", 25))
         ctx.I = I
         ctx.hashseeds = job.get("replay_hashseeds", 0)
+        ctx.env_nondet = bool(job.get("env_nondet"))
         I.flush_hook = ctx.flush
         sym = api.Sym(I, ctx)
         ctx.sym = sym
